@@ -28,5 +28,9 @@ for sid in ids:
     caught = [p for p, v in det.items() if not v[0].startswith("ANALYSIS-ERROR")]
     results[sid] = {"property": own, "detected_by": caught, "undecided": [p for p in det if p not in caught],
                     "reports": {p: det[p] for p in det}, "head": subprocess.check_output(["git", "-C", "/repo", "rev-parse", "--short", "HEAD"], text=True).strip()}
-    print(f"{sid}: {'CAUGHT by ' + ','.join(caught) if caught else 'MISSED'}" + (f"  (exit 2 in {results[sid]['undecided']})" if results[sid]['undecided'] else ""))
+    meta = json.load(open(os.path.join(V, "seeded", sid, "meta.json")))
+    oos = meta.get("outside_property_quantifier")
+    if oos:
+        results[sid]["outside_property_quantifier"] = oos
+    print(f"{sid}: {'CAUGHT by ' + ','.join(caught) if caught else ('SILENT (manifests only outside the property quantifier)' if oos else 'MISSED')}" + (f"  (exit 2 in {results[sid]['undecided']})" if results[sid]['undecided'] else ""))
 json.dump(results, open(respath, "w"), indent=1, sort_keys=True)
